@@ -248,6 +248,11 @@ func (c *callEngine) callWithStack(ctx context.Context, paramResultStack []uint6
 			m.CloseWithCtxErr(ctx)
 			return m.FailIfClosed()
 		default:
+			// A cycle through a host function which calls back into the module never reaches a loop header: the
+			// closed module is noticed when the call is entered.
+			if err := m.FailIfClosed(); err != nil {
+				return err
+			}
 		}
 	}
 
